@@ -148,3 +148,16 @@ def stall_at_output(spec):
     for i in range(1, c.n):
         t = t * c.etas[i] * c.ratios[i]
     return t
+
+
+def scaled(spec, s, t_unit='kNm', j_unit='kgm^2'):
+    """The same mechanism with every torque and every inertia multiplied by s (speeds, accelerations, ratios, times and
+    efficiencies unchanged: the equations are homogeneous), written in t_unit / j_unit so that the raw numbers are tiny
+    (s << 1) or huge.  The load must be derived from the scaled spec (stall_at_output) or scaled by the caller."""
+    import copy
+    out = copy.deepcopy(spec)
+    for el in out['elements']:
+        el['J'] = [si.convert(si.si(el['J'][0], 'InertiaMoment', el['J'][1]) * s, 'InertiaMoment', 'kgm^2', j_unit), j_unit]
+        if 'Tmax' in el:
+            el['Tmax'] = [si.convert(si.si(el['Tmax'][0], 'Torque', el['Tmax'][1]) * s, 'Torque', 'Nm', t_unit), t_unit]
+    return out
